@@ -1575,7 +1575,7 @@ def correspond(ctx):
         scenarios.append(sc)
     flines, fwant = float_cases(ctx, 20000 if thorough else 2500)
     lines = [l for sc in scenarios for l in sc.lines]
-    replies = ctx.lean(DRIVER, lines + flines)
+    replies = ctx.lean(DRIVER, lines + flines, timeout=3000)
     for line, want, got in zip(flines, fwant, replies[len(lines):]):
         if want == 'nan':
             ok = got.startswith('ok ') and is_nan_bits(int(got[3:]) if line.startswith('f64to32') else int(got[3:]) | (1 << 62))
